@@ -253,6 +253,18 @@ def run_case(ctx, c):
     elif not dist.startswith("stale-before:"):
         fired = rig.bus.fault.fired
     rig.bus.fault = None
+    # the call is over: whatever is finalised now (file objects of the transfer, kept alive by the traceback until here)
+    # must not put another frame on the bus - the transfer has ended, one way or the other
+    ended = len(rig.bus.log)
+    if exc is not None:
+        exc = exc.with_traceback(None)
+    import gc
+    gc.collect()
+    stray = [f for f in list(rig.bus.log)[ended:] if f.src == "master"]
+    if stray:
+        ctx.violation(f"client-frame-after-the-call-ended:{kind}", f"after the {kind} call had {'raised ' + repr(exc) if exc is not None else 'returned'} "
+                      f"(disturbance {dist} at step {k}) the client still sent {[f.data.hex() for f in stray]} when its file objects were finalised",
+                      c, rig.wire(20))
     trace = rig.wire(50)
     if not fired:
         ctx.inconc("fault plan never fired", c)
